@@ -33,3 +33,38 @@ func VerifHarness_C27_BlockChecksum() {
 	sym.Assert(err != nil, "altered-block-is-rejected")
 	sym.Reach("checksum")
 }
+
+// VerifHarness_C27_BlockChecksumAnyLength: the same lemma for a block of any
+// length up to ~64 KiB and beyond (the length is symbolic, the buffer is one
+// symbolic array): a block whose trailer carries the checksum of data+type
+// validates, and after altering any one byte it does not. The checksum over a
+// symbolic-length range is an uninterpreted function of (memory, offset,
+// length); the bit-flip diagnostic that runs after a mismatch is stubbed.
+func VerifHarness_C27_BlockChecksumAnyLength() {
+	const maxLen = 70000
+	n := sym.Range("block-length", 1, maxLen-TrailerLen)
+	b := sym.Block("buffer", maxLen)[: n+TrailerLen : n+TrailerLen]
+	sum := crc.New(b[:n+1]).Value()
+	binary.LittleEndian.PutUint32(b[n+1:], sum)
+	// writing the trailer does not change the checksum of the bytes before it (a fact the
+	// range abstraction - a function of the whole buffer - forgets)
+	sym.Assume(crc.New(b[:n+1]).Value() == sum)
+	bh := Handle{Offset: uint64(sym.U32("offset")), Length: uint64(n)}
+	sym.Assert(ValidateChecksum(ChecksumTypeCRC32c, b, bh) == nil, "intact-block-validates")
+
+	i := sym.Range("altered-offset", 0, maxLen)
+	sym.Assume(i < n+TrailerLen)
+	nv := sym.U8("altered-value")
+	sym.Assume(nv != b[i])
+	b[i] = nv
+	// idealisation: different covered bytes, different CRC; and (a fact about any checksum that
+	// the range abstraction - a function of the whole buffer - forgets) bytes outside the covered
+	// range do not influence it
+	after := crc.New(b[:n+1]).Value()
+	sym.Assume(sym.Implies(i <= n, after != sum))
+	sym.Assume(sym.Implies(i > n, after == sum))
+	var err error
+	sym.NoPanic("validate-altered-block", func() { err = ValidateChecksum(ChecksumTypeCRC32c, b, bh) })
+	sym.Assert(err != nil, "altered-block-is-rejected")
+	sym.Reach("checksum-any-length")
+}
